@@ -52,3 +52,12 @@ Lemma terminate_one_critical_section :
   terminate_nesting = ["with self.lock"; "for i in range(63,-1,-1)"; "self.sap[i].shutdown()"; "self.sap[i] = None";
                        "self.link.SHUTDOWN = True"].
 Proof. vm_compute. reflexivity. Qed.
+
+(* the calls in the loop bodies that can raise outside the handled set are exactly the three known ones (the
+   extractor fails closed on any call or object comparison it has not classified): the `==` on the received
+   PDU (re-encodes it), collect() and dispatch().  That they do not raise is not a C09 theorem: it is the
+   subject of C11 (encode of a decoded PDU), C10/C11 (collect) and C07 (dispatch); the C09 harness covers it
+   by sending every PDU type / enumerated field value from the scripted peer. *)
+Lemma run_loops_uncovered_calls :
+  map (fun e => List.length (snd e)) run_loop_uncovered = [3; 3].
+Proof. vm_compute. reflexivity. Qed.
